@@ -175,12 +175,107 @@ def reindent(r):
     return s
 
 
+
+# ---- programs near the boundary of every semantic check of errors.py (valid near-misses; the reference interpreter decides validity) ----
+SEMANTIC = [
+    # global / nonlocal bookkeeping
+    'def f():\n    global x\n    x = 1\n', 'def f():\n    x = 1\n    def g():\n        nonlocal x\n        x = 2\n    return g\n',
+    'x = 1\ndef f():\n    global x\n    print(x)\n', 'class C:\n    global y\n    y = 1\n', 'def f():\n    def g():\n        global a\n        a = 1\n    a = 2\n',
+    'def f(a):\n    def g():\n        nonlocal a\n        a += 1\n', 'def f():\n    global a, b\n    a = b = 0\n',
+    'def f():\n    x = 0\n    class C:\n        nonlocal x\n        x = 1\n', 'def f():\n    print(y)\n    def g():\n        global y\n',
+    'def f():\n    for i in r:\n        pass\n    def g():\n        global i\n', 'def f():\n    import os\n    def g():\n        global os\n        os = 1\n',
+    # await / async
+    'async def f():\n    await g()\n', 'async def f():\n    return [await x for x in y]\n', 'async def f():\n    async with a as b:\n        pass\n',
+    'async def f():\n    async for i in a:\n        pass\n    else:\n        pass\n', 'async def f():\n    def g():\n        pass\n    await g()\n',
+    'async def f():\n    x = lambda: 1\n    return await x()\n', 'async def f():\n    return (await a) + (await b)\n', 'async def f():\n    f"{await x}"\n',
+    # break / continue
+    'for i in x:\n    try:\n        continue\n    finally:\n        pass\n', 'while 1:\n    with a:\n        break\n', 'for i in x:\n    try:\n        pass\n    finally:\n        continue\n',
+    'for a in b:\n    def f():\n        pass\n    break\nelse:\n    pass\n', 'while x:\n    if y:\n        continue\n    else:\n        break\n',
+    'for i in r:\n    class C:\n        pass\n    continue\n', 'for i in r:\n    for j in s:\n        break\n    else:\n        continue\n    break\n',
+    'while 1:\n    try:\n        break\n    except E:\n        continue\n    else:\n        break\n',
+    # yield / return
+    'def f():\n    yield from g()\n', 'def f():\n    x = yield from g()\n', 'def f():\n    return 1\n    yield\n', 'async def f():\n    yield 1\n    return\n',
+    'def f():\n    x = yield\n', 'lambda: (yield)\n', 'class C:\n    def m(self):\n        yield self\n', 'def f():\n    return (yield 1)\n', 'async def f():\n    return 1\n',
+    'def f():\n    return [x for x in (yield)]\n', 'async def f():\n    async def g():\n        yield 1\n    return 2\n', 'def f():\n    x = [(yield 1), (yield 2)]\n',
+    'def f():\n    yield\n    return None\n', 'def f():\n    return\n', 'def f():\n    g(x for x in (yield 1))\n', 'def f():\n    return {k: v for k, v in (yield)}\n',
+    'async def f():\n    x = [y async for y in (yield)]\n', 'def f():\n    await_ = (yield)\n    return await_\n',
+    # names / literals
+    'x = __debug__\n', 'if __debug__:\n    pass\n', 'f(__debug__)\n', "b'abc' b'def'\n", "'a' 'b' \"c\"\n", "x = b'\\xff'\n", "u'x' 'y'\n", "rb'x' b'y'\n", "f'a' 'b'\n",
+    "'\\N{BULLET}'\n", "'\\x41\\u0041\\U00000041'\n", "b'\\N{x}'\n", "r'\\N{'\n", "'\\777'\n", "b'\\d'\n", "'a' f'{b}' 'c'\n", "Rb'\\xz'\n",
+    # stars
+    'def f(*, a): pass\n', 'def f(*, a=1, **k): pass\n', 'def f(a, *, b): pass\n', 'lambda *, a: a\n', 'def f(*a, b): pass\n', '{**a}\n', "{**a, 'b': 1}\n", 'f(**a, **b)\n',
+    "x = {'a': 1, **b}\n", 'a ** b\n', "f'{x:**}'\n", "f'{x:*^10}'\n", "f'{x:**>{w}}'\n", "f'{x!r:**}'\n", 'a, *b = c\n', '*a, = b\n', '[*a, b] = c\n', 'for *a, b in c: pass\n', 'f(*a)\n',
+    'print(*a, *b)\n', 'x = *a, b\n', 'x = [*a, *b]\n', '{*a}\n', '(*a, b) = c\n', 'a, (*b, c) = d\n', 'def f():\n    return *a, b\n', 'for x in *a, b: pass\n', 'x[*a]\n',
+    'del a, (b, c)\n', 'with a as (b, *c): pass\n', 'a, *b, c = d\n', '*a, b = *c, d\n', 'f(*a, *b, **c, **d)\n', 'def f():\n    yield *a, b\n',
+    # imports
+    'from a import (b, c,)\n', 'from a import b as c, d\n', 'from . import x\n', 'from .a import *\n', 'from a import *\n', 'def f():\n    from a import b\n',
+    'from __future__ import annotations\n', 'from __future__ import division as d\n', 'from __future__ import (division, print_function as pf)\n',
+    '"""doc"""\nfrom __future__ import generators\n', 'from __future__ import unicode_literals, absolute_import\nimport x\n', '# c\nfrom __future__ import with_statement\n',
+    'from __future__ import barry_as_FLUFL\n', 'from __future__ import generator_stop\n', 'from __future__ import nested_scopes as n\n',
+    "'d'\n# c\n\nfrom __future__ import division\nfrom __future__ import print_function as p\n", 'from .__future__ import x\n',
+    'import a.b.c as d, e\n', 'from ... import a\n',
+    # annotations
+    'x: int\n', 'x: int = 1\n', 'a.b: int\n', 'a[0]: int = 2\n', '(x): int\n', 'class C:\n    x: int = 0\n', 'def f():\n    x: List[int] = []\n', '(a.b): int = 1\n',
+    # calls
+    'f(a=1)\n', 'f(a=lambda: 1)\n', 'f(x for x in y)\n', 'f(a, b=1, *c, d=2, **e)\n', 'f(a := 1)\n', 'f(a, (b := 2))\n', 'f(a, *b, c)\n', 'f(**a, b=1)\n', 'f(*a, **b)\n', 'f(a, b, c=1, *d)\n',
+    'f(a)(b)(c=1)\n', 'class C(B, metaclass=M): pass\n', "f(a=1, **{'b': 2})\n", 'f(a=1, b=2, **c, d=3)\n', 'f(*a, b, *c)\n', 'f((x for x in y), z)\n', 'f(lambda: (x := 1))\n',
+    'f(a=(b := 1))\n', 'f(x=1)(x=1)\n', 'class C(*a, **k): pass\n',
+    # parameters
+    'def f(a, b=1, *c, d, e=2, **g): pass\n', 'def f(a, /, b): pass\n', 'def f(a=1, /, b=2, *, c): pass\n', 'lambda a, b=1: a\n', 'lambda a, /, b: a\n', 'def f(a, b=1, *, c): pass\n',
+    'def f(a: int = 1, *args: str, **kw: bytes) -> None: pass\n', 'def f(a, b=1, /, c=2): pass\n', 'lambda *a, b, **c: 0\n', 'def f(a, *, b=1, c): pass\n', 'def f(self, a=(1, 2), *b): pass\n',
+    'lambda a=1, *, b: 0\n', 'def f(a, /): pass\n', 'def f(*, a, b=1): pass\n',
+    # try
+    'try:\n    pass\nexcept A:\n    pass\nexcept:\n    pass\n', 'try:\n    pass\nexcept (A, B) as e:\n    pass\nelse:\n    pass\nfinally:\n    pass\n', 'try:\n    pass\nexcept* A:\n    pass\n',
+    'try:\n    pass\nfinally:\n    pass\n', 'try:\n    pass\nexcept A as e:\n    pass\nexcept B as e:\n    pass\n', 'try:\n    pass\nexcept* (A, B) as e:\n    pass\nelse:\n    pass\n',
+    # f-strings
+    "f'{a}'\n", "f'{a!r}'\n", "f'{a:{b}}'\n", "f'{a!s:>{w}.{p}}'\n", "f'{{}}'\n", "f'{a=}'\n", "f'{a = }'\n", 'f"""{\na}"""\n', "f'{a[\"b\"]}'\n", "f'{(lambda x: 1)}'\n", "rf'{a}\\d'\n",
+    "f'{x!r:^{w}}'\n", 'f"{x:%Y-%m-%d}"\n', "def f():\n    return f'{(yield)}'\n", "f'{a:{b}{c}}'\n", "f'{a}{b!a}{c:d}'\n", "f'{a:>10}' f'{b}'\n", "f'{x:{y!r}}'\n", "f'{3.14:10.10}'\n",
+    "f'{a,}'\n", "f'{*a,}'\n", "f'{a if b else c}'\n", "f'{a:=^5}'\n", "f'{(a:=1)}'\n", "f'{x:a{y}b{z}c}'\n", "f'{{{a}}}'\n", "f'{a}}}'\n", "F'{a!r:}'\n", "f'{ a }'\n", "f'{a!r }'\n",
+    "f'{x:yield}'\n", "f'{x:return}'\n", "f'{x:*}'\n", "f'{x:from}'\n", "f'break {x:continue}'\n", "f'{x:await}'\n",
+    # assignment targets
+    'a = b = c\n', 'a, b = c\n', '[a, b] = c\n', '(a) = 1\n', 'a.b = 1\n', 'a[b] = 1\n', 'a[b:c] = 1\n', 'a += 1\n', 'a.b += 1\n', 'a[0] += 1\n', '(a) += 1\n', 'for a.b in c: pass\n', 'for a[0] in c: pass\n',
+    'for (a, b), c in d: pass\n', 'with a as b.c: pass\n', 'with a as b[0], c as (d, e): pass\n', 'with (a as b, c as d): pass\n', 'del a\n', 'del a.b, c[0]\n', 'del (a, b)\n', 'del [a, b]\n', 'del (a), b\n',
+    'a = (b := 1)\n', '[y := 1, y]\n', '[(y := x) for x in z]\n', '(a := 1)\n', 'if (n := len(a)) > 1: pass\n', 'while (x := f()): pass\n', 'lambda: (x := 1)\n', 'def f(a=(b := 1)): pass\n',
+    '[[(z := y) for y in x] for x in w]\n', 'a = b, c = d\n', '(a, b) = [c, d] = e\n', 'a[b][c].d = 1\n', 'a = yield_ = 1\n', 'def f():\n    a = yield\n', '[a, [b, c]] = d\n', '() = a\n', '[] = a\n',
+    'for () in a: pass\n', 'a @= b\n', 'a //= b; a **= c; a >>= 1; a <<= 1; a &= 1; a |= 1; a ^= 1; a %= 2\n', 'x = (yield) if 0 else 1\n', 'del a[0], b.c, (d, [e])\n',
+    '[(a := 1) for [i] in x]\n', '[i for i in range(5) if (j := i)]\n', '{(k := 1): (v := 2)}\n', 'x = [y := 1]\n', 'print(a := 1, b := 2)\n', 'with (a := b): pass\n',
+    # comprehensions
+    'async def f():\n    return [x async for x in y]\n', 'async def f():\n    return (x async for x in y)\n', 'async def f():\n    return {x: y async for x, y in z}\n', '[x for x in y if x for z in x]\n',
+    '[x for x, in y]\n', '[x for (x, y) in z]\n', '[x for x.a in y]\n', 'def f():\n    return (x async for x in y)\n', 'async def f():\n    return [await x async for x in y]\n',
+    '{x for x in y}\n', '{x: y for x, y in z if x if y}\n', '(x for x in y)\n', '[x for x in y for y in z]\n', '[lambda: x for x in y]\n', '[x for x in y if lambda: x]\n', '[x for x in (lambda: y)()]\n',
+    'async def f():\n    return [[y async for y in x] for x in z]\n', 'async def f():\n    return {x async for x in y if await x}\n', '[x async for x in y]\n',
+    # match / misc
+    'match x:\n    case [a, *b]:\n        pass\n    case {"k": v, **r}:\n        pass\n    case C(a, b=c) | D():\n        pass\n', 'match = 1\ncase = match\n', 'print(match(x))\n',
+    'type X = int\n', 'def f[T](a: T) -> T: return a\n', 'class C[T]: pass\n', 'x = 1 if a else 2 if b else 3\n', 'assert (a, b)\n', 'raise A from B\n', 'with a, b as c: pass\n',
+    '@a.b(c)\n@d\nclass C: pass\n', '@(a := b)\ndef f(): pass\n', 'x = not a in b\n',
+]
+WRAPS = ['', '', '', 'def w():\n', 'async def w():\n', 'class W:\n', 'if c:\n', 'for q in p:\n', 'while c:\n', 'try:\n', 'with m:\n', 'def w():\n    def v():\n', 'class W:\n    def m(self):\n']
+
+
+def semantic(r):
+    """one to three near-miss programs, optionally nested inside a function / class / loop / try"""
+    out = []
+    for _ in range(r.randint(1, 3)):
+        src = r.choice(SEMANTIC)
+        w = r.choice(WRAPS)
+        if w:
+            depth = w.count('\n')
+            body = ''.join('    ' * depth + ln for ln in src.splitlines(True))
+            src = w + body
+            if w.startswith('try:'):
+                src += 'finally:\n    pass\n'
+        out.append(src)
+    if r.random() < 0.3:
+        r.shuffle(out)
+    return ''.join(out)
+
+
 def derived_any(r):
     return derived(r, r.choice(['3.6', '3.8', '3.10', '3.12', '3.14']))
 
 
 KINDS = [('garbage', garbage, 25), ('lines', lines, 15), ('oneliner', oneliner, 30), ('valid', valid, 10),
-         ('mutate', mutate, 15), ('corpus', corpus, 5), ('derived', derived_any, 10), ('fstrings', fstrings, 20), ('reindent', reindent, 25)]
+         ('mutate', mutate, 15), ('corpus', corpus, 5), ('derived', derived_any, 10), ('fstrings', fstrings, 20), ('reindent', reindent, 25), ('semantic', semantic, 20)]
 
 
 def text_case(seed, stream, index, kinds=None):
@@ -251,25 +346,149 @@ class Deriver:
         return cls._cache[version]
 
     def derive(self, rnd, rule, budget, out):
+        yield_labels(self.derive_tree(rnd, rule, budget), out)
+
+    def min_arc(self, s):
+        return min(sorted(s.arcs.items()), key=lambda o: (self.cost_rule[o[0]] if o[0] in self.dfas else 1) + self.cost_state[id(o[1])])
+
+    def derive_tree(self, rnd, rule, budget):
+        """('N', rule, kids) / ('L', label): a random derivation of `rule`, steered to rarely used arcs, closed at minimal cost once the budget is spent"""
         s = self.dfas[rule][0]
+        kids = []
         while True:
             opts = sorted(s.arcs.items())
             if budget[0] <= 0:
                 if s.is_final:
-                    return
-                l, nx = min(opts, key=lambda o: (self.cost_rule[o[0]] if o[0] in self.dfas else 1) + self.cost_state[id(o[1])])
+                    break
+                l, nx = self.min_arc(s)
             else:
                 if s.is_final and (not opts or rnd.random() < 0.5):
-                    return
+                    break
                 w = [1.0 / (1 + self.arc_use[(id(s), l)]) for l, _ in opts]
                 l, nx = rnd.choices(opts, weights=w)[0]
             self.arc_use[(id(s), l)] += 1
             budget[0] -= 1
-            if l in self.dfas:
-                self.derive(rnd, l, budget, out)
-            else:
-                out.append(l)
+            kids.append(self.derive_tree(rnd, l, budget) if l in self.dfas else ('L', l))
             s = nx
+        return ('N', rule, kids)
+
+    # ---- targeted derivations: a derivation of `root` that takes a given arc ----
+    def all_arcs(self, root):
+        """every (rule, state index, label) reachable from root"""
+        seen, todo, out = set(), [root], []
+        while todo:
+            r = todo.pop()
+            if r in seen:
+                continue
+            seen.add(r)
+            for i, s in enumerate(self.dfas[r]):
+                for l in sorted(s.arcs):
+                    out.append((r, i, l))
+                    if l in self.dfas:
+                        todo.append(l)
+        return sorted(out)
+
+    def _rdist(self, target):
+        """rule -> number of nonterminal steps needed to get from that rule down to `target`"""
+        key = ('rdist', target)
+        if key not in self.__dict__.setdefault('_memo', {}):
+            dist = {target: 0}
+            changed = True
+            while changed:
+                changed = False
+                for r, states in self.dfas.items():
+                    best = dist.get(r)
+                    for s in states:
+                        for l in s.arcs:
+                            if l in dist and (best is None or dist[l] + 1 < best):
+                                best = dist[l] + 1
+                    if best is not None and best != dist.get(r):
+                        dist[r] = best
+                        changed = True
+            self._memo[key] = dist
+        return self._memo[key]
+
+    def _path_to(self, rule, want):
+        """shortest list of (label, next state) from the start state of `rule` to a state s for which want(s) holds; returns (path, s)"""
+        import collections
+        start = self.dfas[rule][0]
+        prev = {id(start): None}
+        q = collections.deque([start])
+        byid = {id(start): start}
+        while q:
+            s = q.popleft()
+            if want(s):
+                path = []
+                cur = s
+                while prev[id(cur)] is not None:
+                    ps, l = prev[id(cur)]
+                    path.append((l, cur))
+                    cur = ps
+                return list(reversed(path)), s
+            for l, nx in sorted(s.arcs.items()):
+                if id(nx) not in prev:
+                    prev[id(nx)] = (s, l)
+                    byid[id(nx)] = nx
+                    q.append(nx)
+        return None, None
+
+    def _close(self, rnd, s, kids, budget):
+        """finish the current rule from state s"""
+        while True:
+            if s.is_final and (budget[0] <= 0 or not s.arcs or rnd.random() < 0.6):
+                return
+            if budget[0] <= 0:
+                l, nx = self.min_arc(s)
+            else:
+                l, nx = rnd.choice(sorted(s.arcs.items()))
+            budget[0] -= 1
+            kids.append(self.derive_tree(rnd, l, budget) if l in self.dfas else ('L', l))
+            s = nx
+
+    def derive_with_arc(self, rnd, root, arc, budget=None):
+        """a derivation of `root` that contains the arc (rule, state index, label); None when the arc is not reachable from root"""
+        budget = budget or [0]
+        rule, idx, label = arc
+        dist = self._rdist(rule)
+        if root not in dist:
+            return None
+
+        def go(r):
+            kids = []
+            if r == rule:
+                target_state = self.dfas[rule][idx]
+                path, s = self._path_to(r, lambda st: st is target_state)
+                if path is None:
+                    return None
+                for l, nx in path:
+                    kids.append(self.derive_tree(rnd, l, [0]) if l in self.dfas else ('L', l))
+                nx = target_state.arcs[label]
+                self.arc_use[(id(target_state), label)] += 1
+                kids.append(self.derive_tree(rnd, label, budget) if label in self.dfas else ('L', label))
+                self._close(rnd, nx, kids, budget)
+                return ('N', r, kids)
+            d = dist[r]
+            path, s = self._path_to(r, lambda st: any(l in dist and dist[l] == d - 1 for l in st.arcs))
+            if path is None:
+                return None
+            for l, nx in path:
+                kids.append(self.derive_tree(rnd, l, [0]) if l in self.dfas else ('L', l))
+            l = sorted(x for x in s.arcs if x in dist and dist[x] == d - 1)[0]
+            sub = go(l)
+            if sub is None:
+                return None
+            kids.append(sub)
+            self._close(rnd, s.arcs[l], kids, budget)
+            return ('N', r, kids)
+        return go(root)
+
+
+def yield_labels(t, out):
+    if t[0] == 'L':
+        out.append(t[1])
+    else:
+        for k in t[2]:
+            yield_labels(k, out)
 
 
 NAMES = ['a', 'b', 'c', 'x', 'y', 'f', 'g', 'self', 'Cls', 'l', 'n', 'value']
@@ -332,6 +551,14 @@ def derived(r, version='3.10', start='file_input', budget=None):
     out = []
     for _ in range(r.randint(1, 4)):
         labels = []
-        d.derive(r, 'stmt', [budget or r.choice([6, 10, 16, 25, 40])], labels)
+        if r.random() < 0.5:
+            # aim at one arc of the grammar, so that every rule and every alternative of every version is reached
+            arcs = d.__dict__.setdefault('_stmt_arcs', None) or d.all_arcs('stmt')
+            d._stmt_arcs = arcs
+            t = d.derive_with_arc(r, 'stmt', r.choice(arcs), [budget or r.choice([0, 4, 10])])
+            if t is not None:
+                yield_labels(t, labels)
+        if not labels:
+            d.derive(r, 'stmt', [budget or r.choice([6, 10, 16, 25, 40])], labels)
         out.append(render(labels, r))
     return ''.join(out)
